@@ -40,6 +40,11 @@ func HarnessC15Schedule() {
 			}
 		}
 		rm = rm.apply(b)
+		// regen=1: a schedule is also asked for after every earlier block (the tracker is used
+		// incrementally); the verdict is on the final one
+		if verifParam("regen", 0) == 1 && k < blocks-1 {
+			cs.GenerateCachingSchedule(maxN)
+		}
 	}
 	maxMem := verifNondetInt("maxMemory")
 	verifAssume(maxMem >= 1)
